@@ -17,6 +17,7 @@ CONSTANTS
   AuthSetups <- AuthSetupsDef
   Forms <- FormsDef
   AltForm <- AltFormDef
+  Scales <- ScalesDef
   Variant = "signpath"
 INVARIANT SigVerifies
 CHECK_DEADLOCK FALSE
